@@ -108,6 +108,10 @@ def single_edits(segs, toks, maxlen=12):
                 yield ("sub", i, t)
         yield ("del", i, None)
         yield ("dup", i, None)
+        for c in ("\n", "\r\n", " ", "\t", "\x00"):
+            yield ("sub", i, segs[i] + c)      # a valid value followed by a control character
+        for c in ("\n", " "):
+            yield ("sub", i, c + segs[i])
     for i in range(n + 1):
         for t in toks:
             yield ("ins", i, t)
